@@ -71,6 +71,7 @@ type prodGate struct {
 	Part    int    `json:"part"`    // -1 any
 	Hwm     int    `json:"hwm"`     // -1 any, 0 = hwm 0, 1 = hwm > 0 (pp.recv only)
 	Nth     int    `json:"nth"`     // fire on the n-th match (1 = first)
+	MinArg  int    `json:"minArg"`  // hooks whose first argument is an int (rh.loop: queue length): fire when arg >= MinArg
 }
 
 type prodScenario struct {
@@ -298,6 +299,11 @@ func runProducerScenario(t testing.TB, rec *vRec, sc *prodScenario) {
 				}
 				if g.Hwm == 0 && hwm != 0 || g.Hwm == 1 && hwm <= 0 {
 					continue
+				}
+				if g.MinArg > 0 {
+					if n, ok := args[0].(int); !ok || n < g.MinArg {
+						continue
+					}
 				}
 				gs.matches++
 				if gs.matches == g.Nth {
